@@ -138,7 +138,7 @@ def check_identity(f, rep):
         return
     # MAX_LENGTH
     seen = {"ctor": 0, "new": 0, "err": 0}
-    for p in Sym(f).paths(main):
+    for p in pathq.paths(f, main):
         if p.end != "return" or p.ret is None:
             continue
         key = (norm_base(("arg", 1)), 0)
@@ -153,7 +153,7 @@ def check_identity(f, rep):
         elif r[0] == "agg" and r[3] == "Ok" and inner is not None and inner[0] in ("call", "pure") and short(inner[1]) in ("new", "default"):
             seen["new"] += 1
             rep.check(lf.iv.hi == 0, "R04.3", "R04.3|empty-gets-fresh", "a fresh identity is generated exactly for the empty announcement (length %s)" % lf.iv, main.loc())
-        elif r[0] == "agg" and r[3] == "Err":
+        elif (r[0] == "agg" and r[3] == "Err") or pathq.ret_kind(p) == "Err":       # `return Err(..)` or `check(..)?`
             seen["err"] += 1
             rep.check(lf.iv.lo == 256, "R04.3", "R04.3|oversize-rejected", "Err is returned exactly for lengths %s (RFC: >= 256)" % lf.iv, main.loc())
         else:
@@ -217,6 +217,13 @@ def check_version(f, rep):
                     eq = t if e[1] == "Eq" else (not t)
                     if eq:
                         sig[idx[0][2][1]] = e[3][1]
+            for (e, c, _, _) in p.conds:
+                # the byte matched against a literal pattern (`matches!((v[0], v[9]), (0xff, 0x7f))`): a switch on the byte itself
+                x = e
+                while isinstance(x, tuple) and x and x[0] in ("deref", "cast", "ref"):
+                    x = x[1]
+                if isinstance(x, tuple) and x and x[0] == "index" and x[2][0] == "int" and c[0] == "eq":
+                    sig.setdefault(x[2][1], c[1])
             mech = pathq.ok_decided(p, lambda x: x[0] in ("call", "pure") and short(x[1]) == "try_from" and "ZmqMechanism" in x[1])
             rep.check(lf.iv.lo == 64 and lf.iv.hi == 64, "R04.1", "R04.1|greeting|length", "greeting accepted only with length 64 (path says %s)" % lf.iv, b.loc())
             rep.check(sig.get(0) == 0xFF and sig.get(9) == 0x7F, "R04.1", "R04.1|greeting|signature",
